@@ -130,6 +130,187 @@ it_c
             }
 //@end
 
+// ------------------------------------------------------------------ quadratic form  y' sym(M) x  of an upper-triangular M, F-real
+// a stored entry (r, c) of the upper triangle stands for the two dense entries (r, c) and (c, r), the diagonal for one
+pub open spec fn qf_entry(M: CscMatrix<F>, y: Seq<F>, x: Seq<F>, c: int, k: int) -> real {
+    let r = M.rowval@[k] as int; let mv = M.nzval@[k].v();
+    if r == c { mv * x[c].v() * y[c].v() } else { mv * x[r].v() * y[c].v() + mv * y[r].v() * x[c].v() }
+}
+pub open spec fn qf_col(M: CscMatrix<F>, y: Seq<F>, x: Seq<F>, c: int, hi: int) -> real decreases hi - M.colptr@[c] {
+    if hi <= M.colptr@[c] { 0real } else { qf_col(M, y, x, c, hi - 1) + qf_entry(M, y, x, c, hi - 1) }
+}
+pub open spec fn qf_total(M: CscMatrix<F>, y: Seq<F>, x: Seq<F>, j: int) -> real decreases j {
+    if j <= 0 { 0real } else { qf_total(M, y, x, j - 1) + qf_col(M, y, x, j - 1, M.colptr@[j] as int) }
+}
+// the three partial sums the loop keeps for column c: diagonal terms, sum Mv*x[r], sum Mv*y[r] over the strict upper part
+pub open spec fn qf_d(M: CscMatrix<F>, y: Seq<F>, x: Seq<F>, c: int, hi: int) -> real decreases hi - M.colptr@[c] {
+    if hi <= M.colptr@[c] { 0real } else { qf_d(M, y, x, c, hi - 1) + (if M.rowval@[hi - 1] == c { M.nzval@[hi - 1].v() * x[c].v() * y[c].v() } else { 0real }) }
+}
+pub open spec fn qf_t(M: CscMatrix<F>, w: Seq<F>, c: int, hi: int) -> real decreases hi - M.colptr@[c] {
+    if hi <= M.colptr@[c] { 0real } else { qf_t(M, w, c, hi - 1) + (if M.rowval@[hi - 1] < c { M.nzval@[hi - 1].v() * w[M.rowval@[hi - 1] as int].v() } else { 0real }) }
+}
+pub proof fn lemma_qf_split(M: CscMatrix<F>, y: Seq<F>, x: Seq<F>, c: int, hi: int)
+    requires forall|k: int| M.colptr@[c] <= k < hi ==> #[trigger] M.rowval@[k] <= c,
+    ensures qf_col(M, y, x, c, hi) == qf_d(M, y, x, c, hi) + qf_t(M, x, c, hi) * y[c].v() + qf_t(M, y, c, hi) * x[c].v(),
+    decreases hi - M.colptr@[c],
+{
+    if hi <= M.colptr@[c] {
+        assert(0real * y[c].v() == 0real) by(nonlinear_arith);
+        assert(0real * x[c].v() == 0real) by(nonlinear_arith);
+    } else {
+        lemma_qf_split(M, y, x, c, hi - 1);
+        let r = M.rowval@[hi - 1] as int; let mv = M.nzval@[hi - 1].v();
+        let t1 = qf_t(M, x, c, hi - 1); let t2 = qf_t(M, y, c, hi - 1);
+        let yc = y[c].v(); let xc = x[c].v();
+        assert(M.rowval@[hi - 1] <= c);
+        if r < c {
+            let xr = x[r].v(); let yr = y[r].v();
+            assert((t1 + mv * xr) * yc == t1 * yc + mv * xr * yc) by(nonlinear_arith);
+            assert((t2 + mv * yr) * xc == t2 * xc + mv * yr * xc) by(nonlinear_arith);
+        }
+    }
+}
+
+//@fn file=src/algebra/csc/matrix_math.rs name=_csc_quad_form rules=R1,R6,zipidx:2=ii ret=r
+//@contract
+    requires
+        M.colptr_ok(), M.n == M.m, x@.len() == M.n, y@.len() == M.n,
+        // the input is in upper-triangular form (otherwise: documented panic)
+        forall|c: int, k: int| #[trigger] M.in_col(k, c) ==> M.rowval@[k] <= c,
+    ensures
+        // C16 / C03: the value is y' sym(M) x, summed over the stored upper triangle (real arithmetic)
+        r.v() == qf_total(*M, y@, x@, M.n as int),
+//@pre
+    broadcast use real_arith;
+    proof { assert(M.nzval@.len() == M.nzval.len()); }
+//@iter 1
+it0
+//@loop 1
+        invariant
+            it0.seq().len() == M.n, range_from(it0.seq(), 0), M.colptr_ok(), M.n == M.m, x@.len() == M.n, y@.len() == M.n,
+            forall|c: int, k: int| #[trigger] M.in_col(k, c) ==> M.rowval@[k] <= c,
+            out.v() == qf_total(*M, y@, x@, it0.index@ as int),
+//@body_start 1
+        broadcast use real_arith;
+        let ghost gc = col as int;
+        let ghost out0 = out.v();
+        proof { assert(M.colptr@[gc] <= M.colptr@[gc + 1] <= M.colptr@[M.n as int]); }
+//@iter 2
+it1
+//@loop 2
+            invariant
+                it1.seq().len() == r14_n1, range_from(it1.seq(), 0),
+                0 <= gc < M.n, col == gc, first == M.colptr@[gc], last == M.colptr@[gc + 1], first <= last, last <= M.nzval@.len(),
+                M.colptr_ok(), M.n == M.m, x@.len() == M.n, y@.len() == M.n,
+                values@ == M.nzval@.subrange(first as int, last as int), rows@ == M.rowval@.subrange(first as int, last as int), r14_n1 == last - first,
+                forall|c: int, k: int| #[trigger] M.in_col(k, c) ==> M.rowval@[k] <= c,
+                out.v() == out0 + qf_d(*M, y@, x@, gc, first + it1.index@),
+                tmp1.v() == qf_t(*M, x@, gc, first + it1.index@),
+                tmp2.v() == qf_t(*M, y@, gc, first + it1.index@),
+//@body_start 2
+            broadcast use real_arith;
+            proof {
+                let k = first as int + r14_i1 as int;
+                assert(M.in_col(k, gc));
+                assert(values@[r14_i1 as int] == M.nzval@[k]);
+                assert(rows@[r14_i1 as int] == M.rowval@[k]);
+            }
+//@body_end 1
+        proof {
+            assert forall|k: int| M.colptr@[gc] <= k < last implies #[trigger] M.rowval@[k] <= gc by { assert(M.in_col(k, gc)); }
+            lemma_qf_split(*M, y@, x@, gc, last as int);
+            assert(qf_total(*M, y@, x@, gc + 1) == qf_total(*M, y@, x@, gc) + qf_col(*M, y@, x@, gc, M.colptr@[gc + 1] as int));
+        }
+//@end
+
+// ------------------------------------------------------------------ symmetric product  y <- a*sym(A)*x + b*y, F-real
+// dense meaning read off the stored (upper-triangle) entries: entry (i, c) contributes A_ic*x_c to row i and, when it is
+// off the diagonal, A_ic*x_i to row c
+pub open spec fn sv_entry(A: CscMatrix<F>, x: Seq<F>, r: int, c: int, k: int) -> real {
+    let i = A.rowval@[k] as int; let v = A.nzval@[k].v();
+    (if i == r { v * x[c].v() } else { 0real }) + (if i != c && c == r { v * x[i].v() } else { 0real })
+}
+pub open spec fn sv_col(A: CscMatrix<F>, x: Seq<F>, r: int, c: int, hi: int) -> real decreases hi - A.colptr@[c] {
+    if hi <= A.colptr@[c] { 0real } else { sv_col(A, x, r, c, hi - 1) + sv_entry(A, x, r, c, hi - 1) }
+}
+pub open spec fn sv_total(A: CscMatrix<F>, x: Seq<F>, r: int, j: int) -> real decreases j {
+    if j <= 0 { 0real } else { sv_total(A, x, r, j - 1) + sv_col(A, x, r, j - 1, A.colptr@[j] as int) }
+}
+pub proof fn lemma_sv_step(A: CscMatrix<F>, x: Seq<F>, r: int, c: int, k: int, aa: real, base: real, tot: real, ynew: real)
+    requires
+        A.colptr@[c] <= k,
+        ynew == base + aa * (tot + sv_col(A, x, r, c, k))
+              + (if A.rowval@[k] == r { (aa * A.nzval@[k].v()) * x[c].v() } else { 0real })
+              + (if A.rowval@[k] != c && c == r { (aa * A.nzval@[k].v()) * x[A.rowval@[k] as int].v() } else { 0real }),
+    ensures ynew == base + aa * (tot + sv_col(A, x, r, c, k + 1)),
+{
+    let v = A.nzval@[k].v(); let i = A.rowval@[k] as int; let s = tot + sv_col(A, x, r, c, k);
+    assert(sv_col(A, x, r, c, k + 1) == sv_col(A, x, r, c, k) + sv_entry(A, x, r, c, k));
+    let e1 = if i == r { v * x[c].v() } else { 0real };
+    let e2 = if i != c && c == r { v * x[i].v() } else { 0real };
+    assert(aa * (s + (e1 + e2)) == aa * s + aa * e1 + aa * e2) by(nonlinear_arith);
+    assert(aa * (v * x[c].v()) == (aa * v) * x[c].v()) by(nonlinear_arith);
+    assert(aa * (v * x[i].v()) == (aa * v) * x[i].v()) by(nonlinear_arith);
+    assert(aa * 0real == 0real) by(nonlinear_arith);
+}
+
+//@fn file=src/algebra/csc/matrix_math.rs name=_csc_symv_unsafe rules=R1,R3,R10,zipidx:1=i;2=ii
+//@contract
+    requires
+        A.colptr_ok(), A.n == A.m, x@.len() == A.n, old(y)@.len() == A.n, rows_below(*A, A.n as int),
+    ensures
+        final(y)@.len() == old(y)@.len(),
+        // C16: y <- a*sym(A)*x + b*y row by row, sym(A) = A + A' - diag(A) of the stored entries (real arithmetic)
+        forall|r: int| 0 <= r < A.n ==> (#[trigger] final(y)@[r]).v() == b.v() * old(y)@[r].v() + a.v() * sv_total(*A, x@, r, A.n as int),
+//@pre
+    broadcast use real_arith;
+    let ghost y0 = y@;
+//@before "assert!(x.len() == A.n);"
+    let ghost yb = y@;
+    proof {
+        assert(A.nzval@.len() == A.nzval.len());
+        assert forall|r: int| 0 <= r < A.n implies (#[trigger] yb[r]).v() == b.v() * y0[r].v() by {
+            assert(yb[r] == f_mul(y0[r], b));
+            assert(y0[r].v() * b.v() == b.v() * y0[r].v()) by(nonlinear_arith);
+        }
+        assert(a.v() * 0real == 0real) by(nonlinear_arith);
+    }
+//@iter 1
+it0
+//@loop 1
+            invariant
+                it0.seq().len() == r14_n1, range_from(it0.seq(), 0), col_ctr == it0.index@, r14_n1 == A.n,
+                A.colptr_ok(), A.n == A.m, x@.len() == A.n, y@.len() == A.n, rows_below(*A, A.n as int), yb.len() == A.n,
+                forall|r: int| 0 <= r < A.n ==> (#[trigger] yb[r]).v() == b.v() * y0[r].v(),
+                forall|r: int| 0 <= r < A.n ==> (#[trigger] y@[r]).v() == yb[r].v() + a.v() * sv_total(*A, x@, r, col_ctr as int),
+//@body_start 1
+            broadcast use real_arith;
+            let ghost gc = col_ctr as int;
+//@iter 2
+it1
+//@loop 2
+                invariant
+                    it1.seq().len() == r14_n2, range_from(it1.seq(), 0), r14_lo2_0 == first, r14_lo2_1 == first, r14_n2 == last - first,
+                    0 <= gc < A.n, col == gc, xcol == x@[gc], first == A.colptr@[gc], last == A.colptr@[gc + 1], first <= last, last <= A.nzval@.len(),
+                    A.colptr_ok(), A.n == A.m, x@.len() == A.n, y@.len() == A.n, rows_below(*A, A.n as int), yb.len() == A.n,
+                    forall|r: int| 0 <= r < A.n ==> (#[trigger] y@[r]).v() == yb[r].v() + a.v() * (sv_total(*A, x@, r, gc) + sv_col(*A, x@, r, gc, first + it1.index@)),
+//@body_start 2
+                broadcast use real_arith;
+                let ghost yk = y@;
+                let ghost gk = first as int + r14_i2 as int;
+                proof { assert(A.in_col(gk, gc)); }
+//@body_end 2
+                proof {
+                    assert forall|r: int| 0 <= r < A.n implies (#[trigger] y@[r]).v() == yb[r].v() + a.v() * (sv_total(*A, x@, r, gc) + sv_col(*A, x@, r, gc, gk + 1)) by {
+                        lemma_sv_step(*A, x@, r, gc, gk, a.v(), yb[r].v(), sv_total(*A, x@, r, gc), y@[r].v());
+                    }
+                }
+//@body_end 1
+            proof {
+                assert(forall|r: int| 0 <= r < A.n ==> sv_total(*A, x@, r, gc + 1) == sv_total(*A, x@, r, gc) + sv_col(*A, x@, r, gc, A.colptr@[gc + 1] as int));
+            }
+//@end
+
 // (A' x)_j = sum over the stored entries (r, j) of column j of A_rj * x_r
 pub open spec fn colsum_t(A: CscMatrix<F>, x: Seq<F>, j: int, hi: int) -> real
     decreases hi - A.colptr@[j],
